@@ -194,6 +194,7 @@ def _inline_closure_calls(crate, body, pick, max_depth, rnd):
             fp = norm(T.operand_term(t['func'], bi, len(blk['stmts'])))
             while fp[0] in ('ref', 'deref', 'load'):
                 fp = fp[1]
+            el = None
             if fp[0] == 'index' and fp[1][0] == 'const' and fp[1][3] and fp[2][0] == 'const':
                 from .desugar import const_array_ops
                 ops = const_array_ops(crate, fp[1][3])
@@ -201,10 +202,13 @@ def _inline_closure_calls(crate, body, pick, max_depth, rnd):
                     el = ops[int(fp[2][2])] if ops is not None else None
                 except (ValueError, IndexError, TypeError):
                     el = None
-                while el is not None and el[0] == 'cast':
-                    el = el[4]
-                if el is not None and el[0] == 'fn':
-                    ptr_calls[bi] = el[1]
+            elif fp[0] in ('cast', 'fn'):
+                # a function item handed to an inlined helper as a plain `fn(..) -> ..` pointer (pack(&self, Duration::as_millis))
+                el = fp
+            while el is not None and el[0] == 'cast':
+                el = el[4]
+            if el is not None and el[0] == 'fn':
+                ptr_calls[bi] = el[1]
             continue
         if not (cf.startswith('core::ops::function::Fn') and t.get('callee_name') in ('call', 'call_mut', 'call_once')):
             continue
